@@ -381,7 +381,8 @@ def adversarial_response(family: str, item: str, req: bytes, step: int):
         if family == 'group':
             return bytes([0x11, 0]) + body
         if family == 'fbtv':
-            return bytes([0x07]) + body + b'\x01'  # trailing garbage
+            # no length field in this PDU: one entry followed by trailing garbage
+            return bytes([0x07]) + _entries_bytes(family, [(S, min(S + step - 1, 0xFFFF))]) + b'\x01'
         if family in ('inc', 'chr'):
             return bytes([0x09, 0]) + body
         return bytes([0x05, 0]) + body
